@@ -8,7 +8,7 @@ LEVEL = "exploration"
 RULE = ("constraint family (half-space, ball, annulus, thin band, removed orthant, measure-zero hyperplane; boolean and float "
         "returns) x geometry (incl. log transform) x noise mode x start kind (feasible / infeasible / feasible but infeasible "
         "after mesh snapping); the monitor re-evaluates the user's own constraint on the very array passed to the target, on "
-        "every filter output and on the result; infeasible given starts must raise ValueError with 0 target calls. One case in nine is followed, in the same process, by a SEQUEL run that is handed the same constraint callable OBJECT (same x-space region) with another plausible box, i.e. another internal coordinate system (multi-start / re-scaling loops do this); the sequel is judged by the same oracle. Non-trivial: "
+        "every filter output and on the result; infeasible given starts must raise ValueError with 0 target calls. One case in nine is followed, in the same process, by a SEQUEL run that is handed the same constraint callable OBJECT (same x-space region) with another plausible box, i.e. another internal coordinate system (multi-start / re-scaling loops do this); the sequel is judged by the same oracle. Plus every documented option moved off its default (boolean flips, halved / doubled numbers) on noisy problems under measure-zero / thin-band constraints. Non-trivial: "
         "the constraint rejected candidates at >= 2 different call sites (init/search/poll/ES) or a start was rejected; distinct "
         "= distinct (D, geometry, start, landscape, location, mode, constraint, start kind) signatures")
 RUN_KW = {"quick": dict(timeout_case=120, wall_cap=600), "thorough": dict(timeout_case=240, wall_cap=3000)}
@@ -82,6 +82,15 @@ def cases(tier, seed):
                     specB["cons_frame"] = {"lb": specA["lb"], "ub": specA["ub"], "plb": specA["plb"], "pub": specA["pub"]}
                     case = {"spec": specA, "start": "feasible", "sequel": specB}
         out.append(case)
+    # every documented option moved off its default, on noisy problems under measure-zero / thin-band constraints (the
+    # variations of the C09 family that take the rare paths): feasibility must not depend on option values
+    from . import c09
+
+    seen = set()
+    for c in c09.option_variation_cases("thorough", seed, hard=True):
+        if c.get("hard") and (tier != "quick" or tuple(c["option"]) not in seen):
+            seen.add(tuple(c["option"]))
+            out.append({"spec": c["spec"], "start": "feasible", "optvar": c["option"]})
     return out
 
 
